@@ -13,17 +13,26 @@ PLAN = dict(
          "powers of two, multiples of 8 +-1 up to 137 and a stride of 5); c13.built constructs semantically valid but "
          "mis-sized payloads with the public API; c13.modes drives AEAD Open (every length 0..200 and every cut of a genuine "
          "ciphertext) and the XTS/HCTR decrypters in every SM4 dispatch tier; c13.sweep.tiers / c13.built.tiers repeat the "
-         "entry points that decrypt content with an SM4 mode in the noclmul, noaes, avx and sse tiers (thorough: aesni1 too), every constructed payload of 1..8 blocks in both guard placements; a der-oid mutator puts every value into the last two bytes of every OBJECT IDENTIFIER and replaces it by the other OIDs known to the run (seed OIDs + the library's exported ones; sampled in quick). One case = (entry point, artefact, mutator, range of <= 256 positions); "
+         "entry points that decrypt content with an SM4 mode in the noclmul, noaes, avx and sse tiers (thorough: aesni1 too), every constructed payload of 1..8 blocks in both guard placements; a der-oid mutator puts every value into the last two bytes of every OBJECT IDENTIFIER and replaces it by the other OIDs known to the run (seed OIDs + the library's exported ones; sampled in quick). a text-grammar mutator treats every string value (universal string and time types, GeneralName forms, the header lines of encrypted PEM blocks, the text of CFCA escrow blobs; BMPString in 2-octet units) as a little language: at EVERY position delete, cut, drop the head, insert and substitute each of 16 significant characters (quote, backslash, @ . : [ ] % / * , - space NUL LF non-ASCII; thorough 36), cut-and-end-with each of them, insert 8 significant tokens (two dots, two backslashes, backslash-quote, @@ :: :// %00 CRLF; thorough 16), double the string - enclosing DER lengths recomputed (on the entry points that feed the X.509 / CSR / CRL / PEM / escrow parsers directly; containers that embed certificates reach the same sub-parsers; not in the race variant); the seed certificates include a names PKI (root -> intermediate -> leaves) with every GeneralName form, every RFC 2821 mailbox form (quoted local parts, quoted pairs), URIs with userinfo/port/IPv6 literal/escapes, name constraints of all four handled kinds (permitted and excluded, IPv4/IPv6 masks) plus unhandled kinds, every string type, policy qualifiers, CRL/IDP/AIA forms; c13.names re-signs every DER-tree mutant (DER edits, re-lengths, text grammar; thorough: OIDs) of a leaf and of the intermediate with the issuer's key, so that Certificate.Verify gets past the signature check and runs the name-constraint and SAN sub-parsers on the hostile values (hostile leaf below the genuine CA; hostile intermediate between genuine root and leaf; the plain sweep also uses a hostile trust anchor), plus VerifyHostname with fixed and hostile host names; c13.built also constructs algebraically exceptional inputs with the harness' own arithmetic (ref/ec, ref/bn; confirmed by the reference verifier): SM2 (digest, signature) pairs with R = [s]G, r+s = n, r = e, small abscissas, [s]G+[t]P = infinity, [s]G = [t]P, structured honest nonces and range ends for nine digest forms (VerifyASN1, Verify, WithSM2 variants, key recovery, the generic verifier on P-384), SM2 ciphertexts with structured C1 (G, -G, P, x = 0/tiny/p-1, unreduced x+p, infinity encodings) and a genuine C3 in every layout, SM2 key agreement peers whose static key and ephemeral point sum to infinity or are equal (KeyExchange both roles, ecdh.SM2MQV), SM9 signatures/ciphertexts/wrapped keys/key-agreement messages with S or C1 = infinity, +-P1, +-Q, unreduced or off-curve (MAC genuine where the recipient can unwrap), SM9 master and user keys from hostile files (infinity, Ppub = -[h1]P, twist points outside the subgroup) then used. One case = (entry point, artefact, mutator, range of <= 256 positions); "
          "distinct = configuration | entry point / mutator. The hostile bytes sit in guard-page buffers (len == cap), three of "
          "four mutants against the upper page and one against the lower (thorough: every mutant in both placements).",
-    jobs=both("c13.sweep", ["avx2", "purego"], shards=(8, 16), floor=2000)
-         + both("c13.built", ["avx2", "purego", "ia32"], shards=(2, 4), floor=50)
-         + both("c13.modes", ["avx2", "avx", "sse", "noclmul", "noaes", "aesni1", "purego"], shards=(1, 2), floor=80)
+    # jobs start in this order on 16 workers: the long ones (pure-Go sweep, 32-bit build) first
+    jobs=[J("c13.sweep", ["purego"], "purego", shards=(10, 16), floor=2000),
+          # the 32-bit build runs SM9 and the legacy curves 10-20 times slower: a longer per-case limit keeps a loaded
+          # machine from reporting its largest cases as inconclusive
+          J("c13.built", ["ia32"], "ia32", shards=(3, 4), floor=50, deadline="90s"),
+          J("c13.sweep", ["avx2"], "asm", shards=(8, 16), floor=2000),
+          # authenticated hostile certificates (re-signed mutants): the string sub-parsers and the chain builder are the
+          # same Go code in every build, so quick runs the assembly build only
+          J("c13.names", ["avx2"], "asm", shards=(5, 8), floor=500),
+          dict(J("c13.names", ["purego"], "purego", shards=(8, 8), floor=500), thorough_only=True)]
+         + both("c13.built", ["avx2", "purego"], shards=(2, 4), floor=50)
          # every other SM4 mode implementation tier for the entry points that decrypt content with an SM4 mode
          + [J("c13.sweep.tiers", ["noclmul", "noaes", "avx", "sse"], "asm", shards=(2, 4), floor=500),
             J("c13.built.tiers", ["noclmul", "noaes", "avx", "sse"], "asm", shards=(1, 2), floor=20),
             dict(J("c13.sweep.tiers", ["aesni1"], "asm", shards=(4, 4), floor=500), thorough_only=True),
             dict(J("c13.built.tiers", ["aesni1"], "asm", shards=(2, 2), floor=20), thorough_only=True)]
+         + both("c13.modes", ["avx2", "avx", "sse", "noclmul", "noaes", "aesni1", "purego"], shards=(1, 2), floor=80)
          + [dict(J("c13.sweep", ["avx2"], "race", shards=(8, 16), floor=2000), thorough_only=True),
             dict(J("c13.built", ["avx2"], "race", shards=(4, 4), floor=50), thorough_only=True),
             dict(J("c13.modes", ["avx2"], "race", shards=(1, 2), floor=80), thorough_only=True)],
@@ -37,20 +46,27 @@ PLAN = dict(
                  "reads outside the input are observable only on the guarded side of the buffer and only when they cross "
                  "the page boundary; writes outside are observable anywhere in the guard region (canary)",
                  "documented precondition refusals of APIs without an error channel (XTS/HCTR below one block) are accepted "
-                 "only with their exact message"],
+                 "only with their exact message",
+                 "the 32-bit build's per-case limit is 90 s instead of 30 s (SM9 and the legacy curves are 10-20 times slower there)",
+                 "an SM9 user private key decoded from a form without the master public key cannot sign or run the key "
+                 "exchange; since /repo 7f6d355 such uses report an error instead of dereferencing nil, and the sweep now "
+                 "uses every decoded user key (Sign, MasterPublic, key exchange both roles, re-encoding)"],
 )
 
 CLAIM = dict(
-    text="Runtime monitoring of ~100 exported entry points that consume external bytes (sm2, sm9, ecdh, smx509, pkcs8, pkcs7 "
+    text="Runtime monitoring of ~110 exported entry points that consume external bytes (sm2, sm9, ecdh, smx509, pkcs8, pkcs7 "
          "with every accessor after Parse, cfca, padding, AEAD Open, XTS/HCTR, the BER normaliser): each is executed on every "
          "truncation, every single-byte substitution (4 values), every DER-aware edit, all tiny inputs, cross-type inputs, "
-         "seeded random splices and constructed mis-sized payloads derived from valid artefacts, under recover(), "
+         "seeded random splices, text-grammar edits of every string value at every position, authenticated (re-signed) hostile "
+         "certificates driven through chain verification and host name matching, constructed mis-sized payloads and "
+         "algebraically exceptional values (infinity, equal/opposite points, zero denominators, unreduced coordinates) derived from valid artefacts, under recover(), "
          "SetPanicOnFault, guard-page placement of the input, a canary check and a per-case watchdog, on the assembly and the "
          "pure-Go build (thorough: also under the race detector's checkptr). Any recovered panic, fault, canary hit, process "
          "death or confirmed hang is a violation reported with the exact input and the innermost library frame. "
          "Exploration: exhaustive only over the mutation classes listed in the evidence for the generated seeds.",
     design_ref="DESIGN.md 6 (C13)",
     note="trusted: Go runtime bounds checks and fault recovery, kernel page protection, encoding/asn1 (work-factor guard), "
-         "the harness DER re-serialiser (checked to reproduce every seed byte for byte before it is used)",
+         "the harness DER re-serialiser (checked to reproduce every seed byte for byte before it is used), the reference "
+         "arithmetic ref/ec, ref/bn, ref/sm2sig, ref/sm9 (construction of exceptional values; self-tested)",
     technique="panic/fault monitor + guard pages + watchdog over mutation-enumerated hostile inputs",
 )
